@@ -29,6 +29,9 @@ var errMalformedXPathKey = errors.New("malformed xpath key")
 
 var escapedBracketsReplacer = strings.NewReplacer(`\]`, `]`, `\[`, `[`)
 
+// bracketsEscaper is the inverse of escapedBracketsReplacer, used when a path is rendered as a string
+var bracketsEscaper = strings.NewReplacer(`]`, `\]`, `[`, `\[`)
+
 func relativeToAbsPath(p *sdcpb.Path, currentPath []*sdcpb.PathElem) *sdcpb.Path {
 	np := &sdcpb.Path{
 		Elem: make([]*sdcpb.PathElem, 0, len(p.GetElem())+len(currentPath)),
@@ -344,9 +347,9 @@ func ToXPath(p *sdcpb.Path, noKeys bool) string {
 			// iterate over the sorted keys slice
 			for _, k := range keySlice {
 				sb.WriteString("[")
-				sb.WriteString(k)
+				sb.WriteString(bracketsEscaper.Replace(k))
 				sb.WriteString("=")
-				sb.WriteString(kvMap[k])
+				sb.WriteString(bracketsEscaper.Replace(kvMap[k]))
 				sb.WriteString("]")
 			}
 		}
